@@ -118,7 +118,7 @@ func c09GoWrap(v interface{}) []struct {
 func c09GoCheck(t failer, c *c09GoCase) string {
 	var v interface{}
 	found := false
-	for _, s := range c09GoSpecimens() {
+	for _, s := range c04GoSpecimens() {
 		if s.name == c.Specimen {
 			v, found = s.v, true
 		}
@@ -172,7 +172,7 @@ func TestC09_GoValues(t *testing.T) {
 	rend := bx.NewRenderer(bx.Zero{})
 	rend.NoLayout = true
 	n := 0
-	for _, sp := range c09GoSpecimens() {
+	for _, sp := range c04GoSpecimens() {
 		for wi, w := range c09GoWrap(sp.v) {
 			sel := bx.Sel{Parts: w.sel}
 			var exprs []bx.Expr
